@@ -41,6 +41,9 @@ def runs(tier):
     cfgs = [mk(g, nca=nca, cases=cs, overlap=True, shuffle=sh, pool=pool, kind=kind)
             for g in ([], [2]) for nca, cs in ((1, [[1], [3]]), (2, [[1, 2], [2, 1]]))
             for sh in (False, True) for pool in (False, True) for kind in ("nested", "flat")]
+    cfgs += [mk(g, nca=nca, cases=cs, overlap=True, shuffle=sh, kind=kind)
+             for g in ([], [2]) for nca, cs in ((1, [[1], [3]]), (2, [[1, 2], [2, 1]]))
+             for sh in (False, True) for kind in ("ds", "df")]
     out.append(dict(name="C02_overlap", configs=cfgs, max_perm=3))
     # bigger case sets / 3-4 case arguments / 2-arg sub-grids by simulation
     cfgs = []
@@ -63,7 +66,7 @@ def run(rep):
                 "optional sub-grid x strategy x output form, overlap configurations, and simulates 3-4 case arguments; every terminal "
                 "behaviour is replayed with a placeholder kind; distinct = (config, permutation, history, variant); non-trivial = n >= 2 or rejected")
     rep.assumptions = ASSUME
-    sweep.drive(rep, runs(rep.tier), "C02", n_variants=1 if rep.tier == "quick" else 3)
+    sweep.drive(rep, runs(rep.tier), "C02", n_variants=2 if rep.tier == "quick" else 4)
 
 
 def replay(rep, saved):
